@@ -17,7 +17,8 @@ BOUND = ("boundary-free hat basis on [0,1]^d, d<=3; data sets of 3..60 samples w
          "stripes (point level <=5, N<=100) with training set := whole scaled data set, through evaluate_levelvec / "
          "solve_regression_dimension_wise(_smooth); (b) Regression.train(test share in {0.1,0.2,0.4}, lmin in {1,2}, lmax<=4 (d=1), <=3/4 (d=2), "
          "<=2/3 (d=3)) and (c) Regression.train_spatially_adaptive(margin in {0.5,0.7,0.9}, max_evaluations in {0,10,25,40}) followed by "
-         "optimize_coefficients(_spatially_adaptive) options 1,2,3; default construction is attempted in every case, all other clauses use "
+         "optimize_coefficients(_spatially_adaptive) options 1,2,3; (d) histories: 2..3 trainings (train or train_spatially_adaptive) on ONE object with "
+         "different test shares {0.1,0.2,0.4,0.6} and regularisations, compared with a fresh object; default construction is attempted in every case, all other clauses use "
          "an operation constructed with rangee=(0.05,0.95) given as a tuple")
 RULE = BOUND + "; one case = one (data set, targets, regularisation, matrix, grid or training call); all cases non-trivial (>=1 basis function, >=1 training sample)"
 BUDGET = {"quick": 60.0, "thorough": 840.0}
@@ -34,6 +35,11 @@ CLAUSES = {
                    "reference by B.design.basis / B.C.*; residual <= 1e-8 * (||L|| ||alpha|| + ||r||)",
     "B.opticom.sum_one": "every optimize_coefficients(_spatially_adaptive) option returns and leaves coefficients summing to 1 (1e-9)",
     "B.run.returns": "the real entry points return normally on valid input",
+    "B.hist.idempotent": "build_A_matrix / build_C_matrix / test() called twice on the same trained object return identical values",
+    "B.hist.report_stable": "surplus arrays handed out by an earlier training on the same object still equal the copy taken then",
+    "B.hist.fresh_equal": "after several trainings (different test share / regularisation) on ONE object, scheme and surpluses equal those of a "
+                          "fresh object trained once with the last arguments (rel 1e-9); every training also satisfies all clauses above for "
+                          "its own training set (witness classes 'retrain...')",
 }
 
 REG = "sparseSpACE.GridOperation:Regression."
@@ -303,19 +309,9 @@ def case_direct_tree(ctx, case):
         check_normal(ctx, alphas, A_code, op.training_target_values, lam, matrix, C, REG + fn, "dimwise")
 
 
-def case_train(ctx, case):
+def check_trained(ctx, op, combi, lam, matrix, tag):
+    """design matrix, smoothing matrix and normal equations on every component grid of a StandardCombi returned by train()"""
     import numpy as np
-    d, lam, matrix = case["d"], case["lam"], case["matrix"]
-    X, y = make_regression_data(d, case["data"])
-    op = new_regression(ctx, X, y, lam, matrix)
-    if op is None:
-        return
-    combi = None
-    with ctx.guard("B.run.returns", REG + "train", "standard"):
-        with quiet():
-            combi = op.train(case["p_test"], case["lmin"], case["lmax"])
-    if combi is None:
-        return
     for cg in combi.scheme:
         lv = [int(x) for x in cg.levelvector]
         stripes = ref.uniform_stripes(lv)
@@ -326,35 +322,26 @@ def case_train(ctx, case):
             continue
         C = None
         if matrix == "C" and lam != 0 and ref.num_points(stripes) <= 120:
-            with ctx.guard("B.run.returns", REG + "build_C_matrix", "train"):
+            with ctx.guard("B.run.returns", REG + "build_C_matrix", tag):
                 with quiet():
                     op.grid.numPoints = 2 ** np.asarray(lv, dtype=int) - 1
                     C = op.build_C_matrix(list(lv))
+                    C2 = op.build_C_matrix(list(lv))
                 check_C(ctx, C, stripes, True, lv)
+                ctx.check("B.hist.idempotent", np.array_equal(np.asarray(C), np.asarray(C2)), REG + "build_C_matrix", tag, "second call differs")
         A_code = None
-        with ctx.guard("B.run.returns", REG + "build_A_matrix", "train"):
+        with ctx.guard("B.run.returns", REG + "build_A_matrix", tag):
             with quiet():
                 op.grid.numPoints = 2 ** np.asarray(lv, dtype=int) - 1
                 A = op.build_A_matrix(list(lv))
-            A_code = check_design(ctx, A, A_ref, REG + "build_A_matrix", "train", stripes, op.training_data)
-        check_normal(ctx, alphas, A_code, op.training_target_values, lam, matrix, C, REG + ("solve_regression" if lam == 0 else "solve_regression_smooth"), "train")
-    for option in case.get("options", [1, 2, 3]):
-        run_opticom(ctx, lambda o: op.optimize_coefficients(combi, o), combi.scheme, option, False)
+                A2 = op.build_A_matrix(list(lv))
+            A_code = check_design(ctx, A, A_ref, REG + "build_A_matrix", tag, stripes, op.training_data)
+            ctx.check("B.hist.idempotent", np.array_equal(np.asarray(A), np.asarray(A2)), REG + "build_A_matrix", tag, "second call differs")
+        check_normal(ctx, alphas, A_code, op.training_target_values, lam, matrix, C, REG + ("solve_regression" if lam == 0 else "solve_regression_smooth"), tag)
 
 
-def case_train_sa(ctx, case):
+def check_trained_sa(ctx, op, sa, lam, matrix, tag):
     import numpy as np
-    d, lam, matrix = case["d"], case["lam"], case["matrix"]
-    X, y = make_regression_data(d, case["data"])
-    op = new_regression(ctx, X, y, lam, matrix)
-    if op is None:
-        return
-    sa = None
-    with ctx.guard("B.run.returns", REG + "train_spatially_adaptive", "dimwise"):
-        with quiet():
-            sa = op.train_spatially_adaptive(case["p_test"], case["margin"], 1e-9, case["max_evaluations"])
-    if sa is None:
-        return
     for cg in sa.scheme:
         lv = tuple(int(x) for x in cg.levelvector)
         stripes, levels, _ = sa.get_point_coord_for_each_dim(cg.levelvector)
@@ -366,19 +353,117 @@ def case_train_sa(ctx, case):
             continue
         C = None
         if matrix == "C" and lam != 0:
-            with ctx.guard("B.run.returns", REG + "build_C_matrix_dimension_wise", "train"):
+            with ctx.guard("B.run.returns", REG + "build_C_matrix_dimension_wise", tag):
                 with quiet():
                     C = op.build_C_matrix_dimension_wise(stripes, levels)
                 check_C(ctx, C, stripes, False)
         A_code = None
-        with ctx.guard("B.run.returns", REG + "build_A_matrix_dimension_wise", "train"):
+        with ctx.guard("B.run.returns", REG + "build_A_matrix_dimension_wise", tag):
             with quiet():
                 A = op.build_A_matrix_dimension_wise(stripes, levels)
-            A_code = check_design(ctx, A, A_ref, REG + "build_A_matrix_dimension_wise", "train", stripes, op.training_data)
+            A_code = check_design(ctx, A, A_ref, REG + "build_A_matrix_dimension_wise", tag, stripes, op.training_data)
         check_normal(ctx, alphas, A_code, op.training_target_values, lam, matrix, C,
-                     REG + ("solve_regression_dimension_wise" if lam == 0 else "solve_regression_dimension_wise_smooth"), "train-dimwise")
+                     REG + ("solve_regression_dimension_wise" if lam == 0 else "solve_regression_dimension_wise_smooth"), tag + "-dimwise")
+
+
+def case_train(ctx, case):
+    d, lam, matrix = case["d"], case["lam"], case["matrix"]
+    X, y = make_regression_data(d, case["data"])
+    op = new_regression(ctx, X, y, lam, matrix)
+    if op is None:
+        return
+    combi = None
+    with ctx.guard("B.run.returns", REG + "train", "standard"):
+        with quiet():
+            combi = op.train(case["p_test"], case["lmin"], case["lmax"])
+    if combi is None:
+        return
+    check_trained(ctx, op, combi, lam, matrix, "train")
+    for option in case.get("options", [1, 2, 3]):
+        run_opticom(ctx, lambda o: op.optimize_coefficients(combi, o), combi.scheme, option, False)
+
+
+def case_train_sa(ctx, case):
+    d, lam, matrix = case["d"], case["lam"], case["matrix"]
+    X, y = make_regression_data(d, case["data"])
+    op = new_regression(ctx, X, y, lam, matrix)
+    if op is None:
+        return
+    sa = None
+    with ctx.guard("B.run.returns", REG + "train_spatially_adaptive", "dimwise"):
+        with quiet():
+            sa = op.train_spatially_adaptive(case["p_test"], case["margin"], 1e-9, case["max_evaluations"])
+    if sa is None:
+        return
+    check_trained_sa(ctx, op, sa, lam, matrix, "train")
     for option in case.get("options", [1, 2, 3]):
         run_opticom(ctx, lambda o: op.optimize_coefficients_spatially_adaptive(sa, o), sa.scheme, option, True)
+
+
+def case_retrain(ctx, case):
+    """history on ONE Regression object: several trainings with different arguments (test share, regularisation); after each one every
+    component grid must satisfy the clauses for the CURRENT training set; the last state must equal that of a fresh object trained once
+    with the last arguments; surpluses handed out by earlier trainings must not change"""
+    import numpy as np
+    from sparseSpACE.GridOperation import Regression
+    from sparseSpACE.Utils import log_levels, print_levels
+    d, matrix, sa_mode = case["d"], case["matrix"], case["how"] == "train_sa"
+    X, y = make_regression_data(d, case["data"])
+    op = new_regression(ctx, X, y, case["runs"][0]["lam"], matrix)
+    if op is None:
+        return
+    site = REG + ("train_spatially_adaptive" if sa_mode else "train")
+    handed, result = [], None
+
+    def train(o, r):
+        if sa_mode:
+            return o.train_spatially_adaptive(r["p_test"], case["margin"], 1e-9, case["max_evaluations"])
+        return o.train(r["p_test"], case["lmin"], case["lmax"])
+    for k, r in enumerate(case["runs"]):
+        op.regularization = r["lam"]
+        result = None
+        with ctx.guard("B.run.returns", site, "retrain%d" % k):
+            with quiet():
+                result = train(op, r)
+        if result is None:
+            return
+        tag = "train" if k == 0 else "retrain"
+        (check_trained_sa if sa_mode else check_trained)(ctx, op, result, r["lam"], matrix, tag)
+        for cg in result.scheme:
+            v = op.surpluses.get(tuple(int(x) for x in cg.levelvector))
+            if isinstance(v, np.ndarray):
+                handed.append((k, tuple(int(x) for x in cg.levelvector), v, v.copy()))
+        if not sa_mode:
+            with ctx.guard("B.run.returns", REG + "test", tag):
+                with quiet():
+                    e1, e2 = op.test(result), op.test(result)
+                ctx.check("B.hist.idempotent", e1 == e2, REG + "test", tag, "test error %r then %r on the same trained object" % (e1, e2))
+    bad = [(k, lv) for k, lv, obj, cp in handed if not np.array_equal(obj, cp)]
+    ctx.check("B.hist.report_stable", not bad, site, "retrain", "surplus arrays handed out by earlier trainings were modified later: %s" % bad[:4])
+    # fresh object, trained once with the last arguments
+    last = case["runs"][-1]
+    fresh = fres = None
+    with ctx.guard("B.run.returns", site, "fresh"):
+        with quiet():
+            fresh = Regression(np.array(X), np.array(y), last["lam"], matrix, rangee=RANGE, log_level=log_levels.ERROR, print_level=print_levels.ERROR)
+            fres = train(fresh, last)
+    if fres is None:
+        return
+    s_old = sorted((tuple(int(x) for x in cg.levelvector), float(cg.coefficient)) for cg in result.scheme)
+    s_new = sorted((tuple(int(x) for x in cg.levelvector), float(cg.coefficient)) for cg in fres.scheme)
+    okay = s_old == s_new
+    worst = 0.0
+    if okay:
+        for lv, _ in s_old:
+            a0, a1 = np.asarray(op.surpluses[lv], dtype=float), np.asarray(fresh.surpluses[lv], dtype=float)
+            if a0.shape != a1.shape:
+                okay = False
+                break
+            worst = max(worst, float(np.max(np.abs(a0 - a1) / (1.0 + np.abs(a1)))) if a0.size else 0.0)
+        okay = okay and worst <= 1e-9
+    ctx.check("B.hist.fresh_equal", okay, site, "retrain-sa" if sa_mode else "retrain",
+              "state after %d trainings on one object differs from a fresh object trained once with the last arguments "
+              "(schemes equal: %s, largest relative surplus difference %.3e)" % (len(case["runs"]), s_old == s_new, worst))
 
 
 def case_targets(ctx, case):
@@ -476,6 +561,26 @@ def run(ctx):
         ctx.case(case)
         case_train_sa(ctx, case)
     tsec["train_sa"] = time.time() - t0
+    # ---- histories on one object: train twice / three times with other arguments
+    t0 = time.time()
+    for k in range(12 if quick else 100):
+        if ctx.out_of_time(0.97):
+            break
+        sa_mode = k % 4 == 3
+        d = rng.choice([1, 2, 2, 3]) if not sa_mode else rng.choice([1, 2, 2])
+        lams = [rng.choice([1e-3, 0.1, 0.1, 0.0])]
+        lams.append(lams[0] if rng.random() < 0.6 else rng.choice(LAMBDAS))
+        ps = rng.sample([0.1, 0.2, 0.4, 0.6], 2)
+        runs = [{"p_test": ps[0], "lam": lams[0]}, {"p_test": ps[1], "lam": lams[1]}]
+        if rng.random() < 0.4:
+            runs.append({"p_test": ps[1], "lam": rng.choice([1e-2, 0.1, 1e-3])})      # same split, other regularisation
+        small = {1: 4, 2: 3, 3: 2}[d]
+        case = {"kind": "retrain", "how": "train_sa" if sa_mode else "train", "d": d, "matrix": rng.choice(["C", "I"]), "runs": runs,
+                "lmin": 1, "lmax": rng.randint(2, small), "margin": rng.choice([0.5, 0.9]), "max_evaluations": rng.choice([10, 25]),
+                "data": random_data_desc(rng, mmin=30)}
+        ctx.case(case)
+        case_retrain(ctx, case)
+    tsec["retrain"] = time.time() - t0
     # ---- targets below -1
     for k in range(3 if quick else 12):
         d = rng.choice([1, 2, 3])
@@ -488,5 +593,5 @@ def run(ctx):
 
 @ref.single_thread
 def replay(ctx, case):
-    {"direct_uniform": case_direct_uniform, "direct_tree": case_direct_tree, "train": case_train, "train_sa": case_train_sa,
+    {"direct_uniform": case_direct_uniform, "direct_tree": case_direct_tree, "train": case_train, "train_sa": case_train_sa, "retrain": case_retrain,
      "targets": case_targets}[case["kind"]](ctx, case)
